@@ -132,23 +132,41 @@ CONDS = {
 
 
 def checked_programs(kmain=3, ksub=2, check_names=("none", "size==2", "index==0"), cond_names=("free", "size==2"), stride=1, offset=0):
-    """skeletons decorated with checks and branch conditions; deterministic order; every `stride`-th starting at `offset`"""
-    n = 0
+    """skeletons decorated with checks and branch conditions; deterministic order; every `stride`-th starting at `offset`.
+    The decorations of one skeleton are the product check_names^blocks x cond_names^branches in lexicographic order (the undecorated,
+    branch-free program is left out); the selected indices are computed directly instead of walking the whole space."""
+    n = 0          # global index of the first decoration of the current skeleton
+    nc, nd = len(check_names), len(cond_names)
     for m, s in skeletons(kmain, ksub):
         blocks = list(m) + list(s)
         branchy = [i for i, (t, _) in enumerate(blocks) if t in ("bz", "bnz")]
-        for cks in itertools.product(check_names, repeat=len(blocks)):
-            if all(c == "none" for c in cks) and not branchy:
-                continue
-            for cds in itertools.product(cond_names, repeat=len(branchy)):
-                if n % stride == offset:
-                    cond = [None] * len(blocks)
-                    for bi, c in zip(branchy, cds):
-                        cond[bi] = CONDS[c]
-                    name = ("M[" + ",".join(t + (":" + tg if tg else "") for t, tg in m) + "]" + (" F[" + ",".join(t + (":" + tg if tg else "") for t, tg in s) + "]" if s else "")
-                            + " checks=" + ",".join(cks) + " conds=" + ",".join(cds))
-                    yield name, render(m, s, [CHECKS[c] for c in cks], cond)
-                n += 1
+        ncond = nd ** len(branchy)
+        total = (nc ** len(blocks)) * ncond
+        first = 1 if (not branchy and check_names and check_names[0] == "none") else 0
+        count = total - first
+        # global indices n .. n+count-1 correspond to product indices first .. total-1
+        k = (offset - n) % stride
+        while k < count:
+            pi = k + first
+            ci, di = divmod(pi, ncond)
+            cks = []
+            for _ in range(len(blocks)):
+                ci, r = divmod(ci, nc)
+                cks.append(check_names[r])
+            cks.reverse()
+            cds = []
+            for _ in range(len(branchy)):
+                di, r = divmod(di, nd)
+                cds.append(cond_names[r])
+            cds.reverse()
+            cond = [None] * len(blocks)
+            for bi, c in zip(branchy, cds):
+                cond[bi] = CONDS[c]
+            name = ("M[" + ",".join(t + (":" + tg if tg else "") for t, tg in m) + "]" + (" F[" + ",".join(t + (":" + tg if tg else "") for t, tg in s) + "]" if s else "")
+                    + " checks=" + ",".join(cks) + " conds=" + ",".join(cds))
+            yield name, render(m, s, [CHECKS[c] for c in cks], cond)
+            k += stride
+        n += count
 
 
 # ---------------------------------------------------------------------------------------------- meaning-preserving rewrites (C15)
